@@ -270,6 +270,38 @@ func cmdCheck(argv []string) int {
 		fmt.Fprintln(os.Stderr, "cannot load repository:", err)
 		return 1 // no VIOLATION line: a tree that does not compile is outside the checks' contract
 	}
+	// closures that moved to another ordinal since the contracts were written: re-attach their contracts
+	buildClosureAliases(ld.Fns)
+	{
+		type move struct {
+			from, to string
+			ct       *Contract
+		}
+		var moves []move
+		for full, ct := range ld.Specs.Contracts {
+			if !strings.Contains(full, "$") {
+				continue
+			}
+			key, mode := full, ""
+			if i := strings.Index(full, "@"); i >= 0 {
+				key, mode = full[:i], full[i:]
+			}
+			if cur, ok := baselineToClosure[strings.ReplaceAll(key, modulePrefix+"/", "")]; ok {
+				if nf := qualifyAny(cur) + mode; nf != full {
+					moves = append(moves, move{full, nf, ct})
+				}
+			}
+		}
+		// two phases: a contract must be moved once, from the name it was written under (never from a name it was
+		// just moved to)
+		for _, mv := range moves {
+			delete(ld.Specs.Contracts, mv.from)
+		}
+		for _, mv := range moves {
+			mv.ct.Full = mv.to
+			ld.Specs.Contracts[mv.to] = mv.ct
+		}
+	}
 	{
 		var all []*Contract
 		for _, ct := range ld.Specs.Contracts {
@@ -921,6 +953,7 @@ func untriggered(ld *Loaded, ex *Exec, id string) []string {
 // parameter or named result (a harmless edit) must not make the contracts unreadable: paramNames binds the recorded
 // name to the same position when the function still has as many parameters of it.
 type sigNames struct {
+	Closures []closureFP         `json:"closures,omitempty"` // fingerprints of the function's closures (ordinal-shift tolerance)
 	Params   []string            `json:"params"`
 	Results  []string            `json:"results"`
 	FreeVars []string            `json:"freevars,omitempty"` // captured variables of a closure, in binding order
@@ -986,6 +1019,11 @@ func updateSignatureBaseline(ld *Loaded) {
 			s.Results = append(s.Results, r.At(i).Name())
 		}
 		s.Allocs, s.Phis = localNames(fn)
+		if !strings.Contains(name, "$") {
+			for _, c := range allClosures(fn) {
+				s.Closures = append(s.Closures, fingerprint(c))
+			}
+		}
 		for _, fv := range fn.FreeVars {
 			s.FreeVars = append(s.FreeVars, fv.Name())
 		}
